@@ -90,7 +90,7 @@ class ContractMixin:
                 out[n] = v
                 continue
             try:
-                out[n] = self.coerce(st, v, ty)
+                out[n] = self.coerce_checked(st, v, ty, node, 'arg-' + n)
             except TypeMismatch as ex:
                 self.oblige(st, False, 'type', 'arg-' + n, node=node,
                             info={'claim': 'argument %s of %s has type %s (got %s)' % (n, c.qualname, ty, v.ty)})
@@ -266,11 +266,12 @@ class ContractMixin:
     # ------------------------------------------------------------------
     # contract expressions
     # ------------------------------------------------------------------
-    def eval_contract_expr(self, st, src, extra=None, old_state=None, want_bool=True, use_env=None):
+    def eval_contract_expr(self, st, src, extra=None, old_state=None, want_bool=True, use_env=None, sink=None):
         """Evaluate a clause in state st.  Names: `use_env` if given (call sites),
         else the verified function's current locals over its entry environment."""
         node = parse_expr(src)
         tmp = st.copy()
+        tmp.flow = 'normal'
         if use_env is not None:
             tmp.env = dict(use_env)
         else:
@@ -292,6 +293,8 @@ class ContractMixin:
         for s2, _ in res:
             for f in s2.facts:
                 st.fact(f)
+                if sink is not None:
+                    sink.fact(f)
         if want_bool:
             parts = []
             for s2, v in res:
@@ -332,6 +335,24 @@ class ContractMixin:
                 s3.facts = s2.facts
                 out.append((s3, v))
             return out
+        if name == 'val':
+            outs = []
+            for s2, v in self.eval(st, e.args[0]):
+                v = self.need_value(v)
+                outs.append((s2, unbox(v.ty.inner, v.ty.val(v.t)) if isinstance(v.ty, TOpt) else v))
+            return outs
+        if name == 'orelse':
+            outs = []
+            for s2, (v, d) in self.eval_many(st, e.args):
+                v = self.need_value(v)
+                if isinstance(v.ty, TOpt):
+                    inner = unbox(v.ty.inner, v.ty.val(v.t))
+                    outs.append((s2, merge(v.ty.is_none(v.t), d, inner, self.classes)))
+                elif v.ty == TNone:
+                    outs.append((s2, d))
+                else:
+                    outs.append((s2, v))
+            return outs
         if name == 'implies':
             outs = []
             for s2, (a, b) in self.eval_many(st, e.args):
@@ -489,7 +510,10 @@ class ContractMixin:
         app = f(*terms)
         res = unbox(rty, app)
         key = (name, tuple(t.get_id() for t in terms))
-        if self.rec_depth == 0:
+        reveal = getattr(getattr(mod, name), '_pyvc_reveal', None)
+        if reveal is not None and self.fn_name not in reveal:
+            return res
+        if self.rec_depth == 0 or (reveal is not None and self.rec_depth < 3):
             self.rec_depth += 1
             try:
                 typed = {p: unbox(ty, t) for p, ty, t in zip(params, ptypes, terms)}
